@@ -22,6 +22,9 @@ import (
 
 func TestMain(m *testing.M) { rec.Main(m, "C13") }
 
+// ruleMore describes what was added to the exploration in the build phase.
+const ruleMore = "; a quarter of the specifications are made ill-formed (undefined token or rule, token twice, same value, invalid pattern, unknown predefined name): the diagnostics must name the same tokens (ordinals) in every layout"
+
 const (
 	rule = "a specification model rendered under independent layouts (separators, comments, optional semicolons, with/without final newline, trailing comment) and with constructed padding " +
 		"(spaces, a long comment, blank lines or comment lines; leading or between two tokens) that places the first, last or following byte of a chosen token at b-2..b+2 for b in {4096, 8192, 12288}; " +
@@ -367,7 +370,7 @@ func toggleSemis(t *rapid.T, m *ref.SpecModel) {
 }
 
 func TestLayoutsAndPaddings(t *testing.T) {
-	rec.Rule(rule)
+	rec.Rule(rule + ruleMore)
 	if reloadTolerated() {
 		rec.Assume("listed finding buffer-half-reload (dependency): renderings in which the character that ends a lexeme is the last byte of a 4096-byte buffer half are not compared (counted as excluded_known_reload_alignment)")
 	}
@@ -432,7 +435,7 @@ func TestLayoutsAndPaddings(t *testing.T) {
 
 func TestPaddingSweep(t *testing.T) {
 	rec.Begin(t)
-	rec.Rule(rule)
+	rec.Rule(rule + ruleMore)
 	specs := []string{
 		"grammar calc;\nNUM = /[0-9]+/\n@left \"*\" \"/\"\n@left \"+\" \"-\"\nstart = expr;\nexpr = expr (\"+\" | \"-\") expr | expr (\"*\" | \"/\") expr | \"(\" expr \")\" | NUM;\n",
 		"grammar g\nID = $ID\nstart = {{ stmt }} ;\nstmt = ID \"=\" [ ID { \",\" ID } ] \";\" | \"if\" ID stmt | ;",
